@@ -161,6 +161,34 @@ type lockedDiscard struct{}
 
 func (lockedDiscard) Write(b []byte) (int, error) { return len(b), nil }
 
+// LockedBuf is a goroutine-safe buffer
+type LockedBuf struct {
+	mu sync.Mutex
+	b  bytes.Buffer
+}
+
+func (l *LockedBuf) Write(p []byte) (int, error) {
+	l.mu.Lock()
+	defer l.mu.Unlock()
+	return l.b.Write(p)
+}
+
+// String returns what was written so far
+func (l *LockedBuf) String() string {
+	l.mu.Lock()
+	defer l.mu.Unlock()
+	return l.b.String()
+}
+
+// CaptureShared points the library's two streams at two buffers that stay in place over any number of Shared runs (the
+// harness does not touch the streams between those runs: what one application does to them is seen by the next)
+func CaptureShared() (errBuf, outBuf *LockedBuf) {
+	errBuf, outBuf = &LockedBuf{}, &LockedBuf{}
+	cli.VerifSetStdErr(io.Writer(errBuf))
+	cli.VerifSetStdOut(io.Writer(outBuf))
+	return
+}
+
 // Quiet sends the error stream to a discarding writer once (for Shared runs)
 func Quiet() {
 	cli.VerifSetStdErr(io.Writer(lockedDiscard{}))
